@@ -27,8 +27,8 @@ from ..core import Sub, fail, enc, jkey
 from .. import heapfp
 
 BOUNDS = {
-    'quick': 'operation alphabet: parse(f) for 26 residue-leaving formulas, set_variable x 2 values, set_function x 2 bodies, '
-             'on/off of a cell listener (32 operations); all histories of length <= 2 x 23 probes, debug off and on, each '
+    'quick': 'operation alphabet: parse(f) for 28 residue-leaving formulas, set_variable x 2 values, set_function x 2 bodies, '
+             'on/off of a cell listener, the host changing every cell and range value (35 operations); all histories of length <= 2 x 23 probes, debug off and on, each '
              'history in a pristine process (fork server) against solo outcomes from pristine processes; closure '
              'search over heap fingerprints to a fixpoint (cap depth 5); repetition ladder 1,2,4,...,64 per formula for live '
              'traceback/frame counts; host-list immutability for every documented function x arity <= 2 x list-valued '
@@ -108,7 +108,7 @@ FORMULAS = ['SUM(1,2)+va', 'va*2', '1/0', 'nosuchvar+1', 'SUM(1/0,1)', 'MAX(NA()
             'ABS(TRUE)&"|"&SUM("1")&"|"&INDEX({"a","b"},TRUE)', 'ABS(1.0)&"|"&SUM(1.0)&"|"&(0.0+FALSE)',
             'B2-A1+SUM(A1:B2)', 'SUM(B2:A1)+SUM($C$3:A2)', 'B9&"|"&ISBLANK(D8)', 'A1+C1',
             'IFERROR(SUM(1/0),5)&ISERROR(MAX(NA()))&IF(ISERROR(SUM(1/0)),"n/a",1)',
-            'IFERROR(FBOOM(2),A1)', 'CONCATENATE(1/0,"x")', 'A1:B2']
+            'IFERROR(FBOOM(2),A1)', 'CONCATENATE(1/0,"x")', 'A1:B2', 'A1*B2+nosuchvar', 'SUM(A1:B2)+B2+(']
 NPROBE = 23      # the first 23 are also probes
 NEEDS_ZYGOTE = True
 
@@ -127,18 +127,22 @@ VAR_VALUES = [5, 'v']
 
 def op_alphabet():
     ops = [['parse', i] for i in range(len(FORMULAS))]
-    ops += [['setvar', 0], ['setvar', 1], ['setfn', 0], ['setfn', 1], ['on'], ['off']]
+    ops += [['setvar', 0], ['setvar', 1], ['setfn', 0], ['setfn', 1], ['on'], ['off'], ['bump']]
     return ops
 
 
 OPS = op_alphabet()
 
 
+GEN = {'g': 0}       # the host's sheet: every 'bump' operation changes the value of every cell and range
+
+
 def cell_listener(cell, setter):
-    # the value identifies the cell that was asked for (by coordinates AND by label); rows 8.. are blank
+    # the value identifies the cell that was asked for (by coordinates AND by label) and the current state of the
+    # host's sheet; rows 8.. are blank
     if cell.row.index >= 7:
         return
-    setter(100 * cell.row.index + cell.col.index + 1 + (1000 if cell.label.replace('$', '') != 'A1' else 0))
+    setter(100 * cell.row.index + cell.col.index + 1 + (1000 if cell.label.replace('$', '') != 'A1' else 0) + 5000 * GEN['g'])
 
 
 def guard_listener(cell, setter):
@@ -148,7 +152,7 @@ def guard_listener(cell, setter):
 
 
 def range_listener(s, e, setter):
-    setter([[s.row.index, s.col.index, len(s.label)], [e.row.index, e.col.index, len(e.label)]])
+    setter([[s.row.index, s.col.index, len(s.label)], [e.row.index, e.col.index, len(e.label) + 7000 * GEN['g']]])
 
 
 class World(object):
@@ -156,11 +160,14 @@ class World(object):
 
     def __init__(self, env, debug=False):
         self.p = env.new_parser(debug=debug)
+        GEN['g'] = 0
         self.p.set_function('FBOOM', boom)
         self.p.set_function('FSYN', syn)
         self.p.on('callRangeValue', range_listener)
         self.apply(['setvar', 0])
         self.apply(['setfn', 0])
+        self.apply(['on'])      # the sheet answers from the start: a failing evaluation followed by an edit of the sheet
+                                # (['parse', f], ['bump']) is then a history of length 2
 
     def apply(self, op):
         k = op[0]
@@ -176,6 +183,8 @@ class World(object):
             self.p.on('callCellValue', guard_listener)
         elif k == 'off':
             self.p.off('callCellValue')
+        elif k == 'bump':
+            GEN['g'] += 1       # the host edits its sheet between two evaluations
         return None
 
     def parse(self, text):
